@@ -170,9 +170,10 @@ class Impl:
             kw["deadline_ms"] = dms
         return (cls or self.L.LocalRelationshipChecker)(st, rules=rules, caveat_registry=reg, **kw)
 
-    def check(self, st, rules, reg, ctx, q, lm):
+    def check(self, st, rules, reg, ctx, q, lm, ck=None):
         md, mn, dms, start, reads, rest = lm
-        ck = self.checker(st, rules, reg, md, mn, dms)
+        if ck is None:
+            ck = self.checker(st, rules, reg, md, mn, dms)
         _time.perf_counter_ns = itertools.chain((start,), reads, itertools.repeat(rest)).__next__
         try:
             return ck.check(q[0], q[1], q[2], context=ctx)
@@ -181,27 +182,54 @@ class Impl:
         finally:
             _time.perf_counter_ns = self.real
 
-    def batch(self, st, rules, reg, ctx, b):
+    def batch(self, case, rules, reg, ctx, b):
+        """batch_check on a checker that has already served another batch (other context, store still
+        incomplete): nothing of that earlier call may survive in the answers."""
         md, mn, dms = b["limit"]
         scripts = list(b.get("scripts") or [])
-        state = {"j": 0}
+        state = {"j": 0, "on": False}
         real = self.real
+        L = self.L
 
         def install():
+            if not state["on"]:
+                _time.perf_counter_ns = itertools.repeat(0).__next__
+                return
             j = state["j"]
             state["j"] = j + 1
             start, reads, rest = scripts[j] if j < len(scripts) else (0, [], 0)
             _time.perf_counter_ns = itertools.chain((start,), reads, itertools.repeat(rest)).__next__
 
-        class Probe(self.L.LocalRelationshipChecker):
+        class Probe(L.LocalRelationshipChecker):
             def check(self, subject, relation, resource, *, context=None):
                 install()
                 return super().check(subject, relation, resource, context=context)
 
+        st = L.InMemoryRelationshipStore()
+        tuples = case["store"]
+        k = b.get("prime")
+        k = len(tuples) if k is None else min(k, len(tuples))
+
+        def add(ts):
+            for s, r, o, c in ts:
+                if c is None:
+                    st.add(s, r, o)
+                else:
+                    st.add(s, r, o, caveat=c)
+
+        add(tuples[:k])
         ck = self.checker(st, rules, reg, md, mn, dms, cls=Probe)
+        triples = [tuple(t) for t in b["triples"]]
         _time.perf_counter_ns = itertools.repeat(0).__next__
         try:
-            out = ck.batch_check([tuple(t) for t in b["triples"]], context=ctx)
+            if b.get("prime") is not None:
+                try:
+                    ck.batch_check(triples, context=b.get("prime_ctx"))
+                except Exception:  # noqa: BLE001 - judged on the real call below
+                    pass
+            add(tuples[k:])
+            state["on"] = True
+            out = ck.batch_check(triples, context=ctx)
             return list(out)
         except Exception as e:  # noqa: BLE001
             return ["!raise", type(e).__name__, str(e)[:80]]
@@ -334,12 +362,13 @@ def _check_cases(chk, impl, cases, replay):
             mi += 1
             if _bad_model(mm):
                 raise RuntimeError("model rejected case: %r %r" % (mm, c))
-            for qi, q in enumerate(c["queries"]):
-                for li, lm in enumerate(c["limits"]):
+            for li, lm in enumerate(c["limits"]):
+                ck = impl.checker(st, rules, reg, lm[0], lm[1], lm[2])   # one checker serves all queries
+                for qi, q in enumerate(c["queries"]):
                     m = mm[qi][li]
                     if _bad_model(m):
                         raise RuntimeError("model rejected case: %r %r" % (m, single(c, q, lm)))
-                    a = impl.check(st, rules, reg, ctx, q, lm)
+                    a = impl.check(st, rules, reg, ctx, q, lm, ck)
                     chk.mark((gkey, q, lm), m[1] >= 2 or m[0] == "true")
                     cnt("outcome:" + m[0])
                     cnt("visits:%s" % (m[1] if m[1] < 4 else "4-9" if m[1] < 10 else "10+"))
@@ -353,7 +382,20 @@ def _check_cases(chk, impl, cases, replay):
                     if v:
                         one = single(c, q, lm)
                         if v[0] == "violation":
-                            if not replay and shrink_budget[0] > 0:
+                            # the checker had already answered the earlier queries of the group: keep them in the
+                            # replay unless the failing query fails on a fresh checker too
+                            prefix = dict(one, queries=c["queries"][:qi + 1])
+                            if exp is not None:
+                                prefix["expect"] = [[e[li]] for e in exp[:qi + 1]]
+                            if replay or qi == 0:
+                                one = prefix
+                            elif len(chk.violations) >= 25:
+                                one = prefix
+                            else:
+                                _a, _m, v1 = _verdict_of(impl, one)
+                                if not (v1 and v1[0] == "violation"):
+                                    one = prefix
+                            if not replay and len(one["queries"]) == 1 and shrink_budget[0] > 0:
                                 shrink_budget[0] -= 1
                                 one = shrink(impl, one)
                             chk.violation(v[1], one, impl=a, model=m)
@@ -368,7 +410,7 @@ def _check_cases(chk, impl, cases, replay):
             mi += 2
             if _bad_model(mw) or _bad_model(mb):
                 raise RuntimeError("model rejected batch: %r %r" % (mb, c))
-            out = impl.batch(st, rules, reg, ctx, b)
+            out = impl.batch(c, rules, reg, ctx, b)
             md, mn, dms = b["limit"]
             free = not b.get("scripts") and (dms is None or dms >= 0)
             chk.mark((gkey, "batch", b), len(set(map(tuple, b["triples"]))) < len(b["triples"]))
@@ -714,7 +756,7 @@ def rand_limits(rng, k):
     return lims
 
 
-def rand_batches(rng, queries):
+def rand_batches(rng, queries, nstore):
     pool = queries[:3] + [[q[0], queries[0][1], queries[0][2]] for q in queries[1:3]]
     triples = [rng.choice(pool) for _ in range(rng.randint(1, 8))]
     b = {"triples": triples, "limit": [rng.choice([8, None, 2, 1]), rng.choice([10000, None, 5, 2]),
@@ -723,6 +765,9 @@ def rand_batches(rng, queries):
         d = START + (DEFAULTS[2] if b["limit"][2] is None else b["limit"][2]) * 1_000_000
         b["scripts"] = [[START, [START] * rng.randint(0, 3), rng.choice([START, d + 1])]
                         for _ in range(rng.randint(1, 4))]
+    if rng.random() < 0.6:
+        b["prime"] = rng.randint(0, nstore)
+        b["prime_ctx"] = rng.choice(CTXS)
     return [b]
 
 
@@ -830,7 +875,7 @@ def gen_random_cases(chk):
         c = {"store": store, "rules": rules, "reg": reg, "ctx": ctx, "queries": queries,
              "limits": rand_limits(rng, 5), "fam": fam}
         if rng.random() < 0.4:
-            c["batches"] = rand_batches(rng, queries)
+            c["batches"] = rand_batches(rng, queries, len(store))
         if rng.random() < 0.2:
             c["lookups"] = lookups_for(store)
         out.append(c)
